@@ -722,7 +722,9 @@ func (h *histGen) newLabel() string {
 		n = fmt.Sprintf("boucle_%cé%d", wideRunes[h.g.Intn(len(wideRunes))], h.nlabel) // UTF-8 names
 	case 9:
 		if ss := srcStrings(); len(ss) > 0 { // words the library's own source knows
-			n = ss[h.g.Intn(len(ss))]
+			if w := ss[h.g.Intn(len(ss))]; !strings.HasPrefix(w, " ") && !strings.HasPrefix(w, "!!") && !strings.HasPrefix(w, "base $") && !strings.ContainsAny(w, "\n\t") {
+				n = w // (a name that starts like another kind of listing line cannot be told from one when the listing is read back)
+			}
 		}
 	case 8:
 		// names that mean something to a formatter or a parser: format verbs, quotes, separators, blanks,
